@@ -9,7 +9,8 @@ man = json.load(open('MANIFEST.json'))
 checks = {c['property_id']: c for c in man['checks']}
 kf = json.load(open('known_findings.json'))['findings']
 results = json.load(open('seeded/RESULTS.json')) if os.path.exists('seeded/RESULTS.json') else {}
-out = [open('docs/design_head.md').read()]
+nth = sum(len(re.findall(r'^Theorem ', open(f).read(), re.M)) for f in glob.glob('coq/props/C*.v'))
+out = [open('docs/design_head.md').read().replace('{{NTHEOREMS}}', str(nth))]
 for p in props:
     pid = p['id']
     out.append('### %s - %s\n' % (pid, p['title']))
